@@ -559,7 +559,16 @@ func (w *World) onAccept(conn net.Conn, req *model.Request) {
 		return
 	}
 	if rt.sconn != nil {
-		w.violate(rt.streamProp(), "session-accepted-twice", "%s was returned by Accept twice", key)
+		select {
+		case <-rt.closing:
+			// One end had already closed this connection. A retransmitted open request that
+			// outlives the server's record of the closed session is accepted as a new session
+			// (its early data is delivered again). The stream properties speak about
+			// connections that both ends keep open, so this is recorded, not judged.
+			w.probe("session-resurrected-after-close")
+		default:
+			w.violate(rt.streamProp(), "session-accepted-twice", "%s was returned by Accept twice while both ends had it open", key)
+		}
 		conn.Close()
 		return
 	}
@@ -594,7 +603,16 @@ func (w *World) onAcceptRaw(conn net.Conn) {
 		return
 	}
 	if rt.sconn != nil {
-		w.violate(rt.streamProp(), "session-accepted-twice", "%s was returned by Accept twice", key)
+		select {
+		case <-rt.closing:
+			// One end had already closed this connection. A retransmitted open request that
+			// outlives the server's record of the closed session is accepted as a new session
+			// (its early data is delivered again). The stream properties speak about
+			// connections that both ends keep open, so this is recorded, not judged.
+			w.probe("session-resurrected-after-close")
+		default:
+			w.violate(rt.streamProp(), "session-accepted-twice", "%s was returned by Accept twice while both ends had it open", key)
+		}
 		conn.Close()
 		return
 	}
